@@ -22,6 +22,7 @@
 From Coq Require Import List QArith Arith Bool.
 From D3 Require Import Base.Ops Base.Vec Model.AabbTree.
 Import ListNotations.
+Local Open Scope nat_scope.
 
 Record V2 (F : Type) := mkV2 { px : F; py : F }.
 Arguments mkV2 {F}. Arguments px {F}. Arguments py {F}.
@@ -38,9 +39,12 @@ Section Hydro.
   Local Open Scope ops_scope.
 
   (** EPSILON = np.finfo(float).eps = 2^-52 *)
-  Definition EPSILON : F := cst (1 # 4503599627370496).
+  Definition EPSILON : F := cst (1 # 4503599627370496)%Q.
   (** tolerance=1e-6 of the plane-crossing pre-check *)
-  Definition PRECHECK_TOL : F := cst (4722366482869645 # 4722366482869645213696).
+  (** 1e-6 = 4722366482869645 / 2^72 exactly; written as a product of two exactly
+      representable factors because [float_of_Q] needs numerator and denominator < 2^63 *)
+  Definition PRECHECK_TOL : F :=
+    cst (4722366482869645 # 68719476736)%Q * cst (1 # 68719476736)%Q.
 
   Definition xyz (r : V4 F) : V3 F := V (c0 r) (c1 r) (c2 r).
   Definition v4scale (r : V4 F) (s : F) : V4 F := mkV4 (c0 r * s) (c1 r * s) (c2 r * s) (c3 r * s).
@@ -187,7 +191,7 @@ Section Hydro.
 
   (** [intersect_halfplanes(halfplanes)] *)
   Definition intersect_halfplanes (hs : list (HP F)) : res (list (V2 F)) :=
-    let cap := 3 * length hs in
+    let cap := (3 * length hs)%nat in
     pts <- outer_loop hs cap hs 0 [] ;;
     (* assert n_intersections < len(points) *)
     if (length pts <? cap)%nat then Ok pts else Err EAssert.
@@ -204,7 +208,7 @@ Section Hydro.
     match pts with
     | [] => []
     | p :: pts' =>
-      if (cst 10 * EPSILON) <? norm2d (v2sub p prev) then p :: filter_unique_from p pts'
+      if (cst (10 # 1)%Q * EPSILON) <? norm2d (v2sub p prev) then p :: filter_unique_from p pts'
       else filter_unique_from p pts'
     end.
   Definition filter_unique_points (pts : list (V2 F)) : list (V2 F) :=
@@ -285,8 +289,8 @@ Section Hydro.
     let lb := det3 pa ca ea / det in let lc := det3 ba pa ea / det in let le := det3 ba ca pa / det in
     mkV4 (one - lb - lc - le) lb lc le.
 
-  Definition three : F := cst 3.
-  Definition half : F := cst (1 # 2).
+  Definition three : F := cst (3 # 1)%Q.
+  Definition half : F := cst (1 # 2)%Q.
 
   (** one fan triangle (v0, a, b): (pressure * area, area, area * centroid) *)
   Definition fan_term (t : tetra) (e : V4 F) (E : F) (v0 a b : V3 F) : F * F * V3 F :=
@@ -313,7 +317,10 @@ Section Hydro.
     match poly with
     | [] => (vzero, vzero, zero)
     | v0 :: rest =>
-      let '(total_force, total_area, com_acc) := fan_loop t e E v0 rest (zero, zero, vzero) in
+      (* triangles = TRIANGLES[:len(contact_polygon) - 2]: the table has the 6 triangles
+         (0,1,2) .. (0,6,7), vertices beyond the 8th are never visited *)
+      let '(total_force, total_area, com_acc) :=
+          fan_loop t e E v0 (firstn 7 rest) (zero, zero, vzero) in
       let com := if zero <? total_area then vdivs com_acc total_area else v0 in
       (com, vscale total_force (xyz plane_hnf), total_area)
     end.
